@@ -301,6 +301,7 @@ class Live:
         return out
       ev._population_update = upd
     hist = []          # [dna, reward|None, abandoned]
+    hist0 = []         # the DNA as it was when proposed
     nskipped = nauto = 0
     ptr = 0
     snaps = []
@@ -317,7 +318,10 @@ class Live:
             q += 1
           if q < len(hist):   # the reward is in the history but feedback() was never called
             hu = p.to_json_str([(d, (reward_value(case, space, cfg, d) if j == q else r)) for j, (d, r, _) in enumerate(hist)])
-        snaps.append((p.to_json_str([(d, r) for d, r, _ in hist]), observe(space, cfg, alg), hu))
+        hp = None
+        if any(r is not None for _, r, _ in hist):   # the DNA as stored when it was proposed, the reward as it arrived
+          hp = p.to_json_str([(d0, r) for (_, r, _), d0 in zip(hist, hist0)])
+        snaps.append((p.to_json_str([(d, r) for d, r, _ in hist]), observe(space, cfg, alg), hu, hp))
       if e == 'p':
         try:
           d = alg.propose()
@@ -325,6 +329,7 @@ class Live:
           terminal = (i, err_code(ex))
           break
         hist.append([d, None, False])
+        hist0.append(p.from_json_str(p.to_json_str(d)))
         nskipped += 1 if d.metadata.get('dedup_skipped') else 0
         nauto += 1 if ('reward' in d.metadata and d.metadata.get('feedback_sequence_number') is None) else 0
         canon_key(space, d.metadata.get('dedup_key'), d)
@@ -411,7 +416,7 @@ def evaluate_case(case, lv=None):
   P = res['proposals']
   sched = case['sched']
   nsn = len(res['snaps'])
-  for c, (hjson, lobs, hu) in enumerate(res['snaps']):
+  for c, (hjson, lobs, hu, hp) in enumerate(res['snaps']):
     k = lobs[0]
     robs, rcont, err = lv.recover(hjson, None, det)
     und = []
@@ -430,7 +435,18 @@ def evaluate_case(case, lv=None):
       lcont = list(P[k:k + CONT])
       if len(lcont) < CONT and res['terminal'] is not None:
         lcont.append(-1 - res['terminal'][1])
-    outs.append([lobs, robs, lcont, rcont, und])
+    ptm = []
+    if hp is not None:
+      pobs, _, perr = lv.recover(hp, None, False)
+      ptm = [pobs]
+      sh = shape(cfg)
+      if perr is not None:
+        hits.append(('C15/proposal-time-metadata/recover-raises/%s/%s' % (sh, perr.split(':')[0]), 'recover() raises %s when the history holds the DNAs as they were proposed (no feedback metadata) (crash point %d)' % (perr, c), c))
+      else:
+        d = diff_clause(cfg, property_view(lobs), property_view(pobs))
+        if d:
+          hits.append(('C15/proposal-time-metadata/%s/%s' % (d[0], sh), '%s, history with the DNAs as they were proposed: %s (crash point %d of schedule %s)' % (sh, d[1], c, ''.join(sched)), c))
+    outs.append([lobs, robs, lcont, rcont, und, ptm])
     sh = shape(cfg)
     if err is not None:
       hits.append(('C15/recover-raises/%s/%s' % (sh, err.split(':')[0]), 'recover() raises %s at crash point %d' % (err, c), c))
